@@ -70,6 +70,7 @@ def _common_evidence(prop, level, agg, det, tier, seed, wall, t_main, n_new, rep
         "replays": replays,
         "worker_cpu_seconds": round(agg.worker_wall, 1),
         "main_batch_wall_s": round(t_main, 1),
+        "slowest_runs_wall_s_and_index": agg.slowest,
     }
     cov.update(extra_cov)
     for k, v in sorted(agg.extra.items()):
